@@ -367,15 +367,39 @@ var (
 		{bs + "uD83D" + bs + "uDE00", "surrogate-pair"}, {bs + "ud83d" + bs + "ude00", "surrogate-pair"},
 		{bs + "u{1F600}", "brace-escape"},
 		{"\xc3\xa9", "raw-nonascii"}, {"\xf0\x9f\x98\x80", "raw-nonascii"}, {"\xe2\x80\xa8", "raw-nonascii"}, {"\xef\xbb\xbf", "raw-bom"}, {"\xc2\xa0", "raw-nonascii"},
-		{"\t", "raw-tab"}, {"\x7f", "raw-del"},
+		{"\t", "raw-tab"}, {"\x7f", "raw-del"}, {"\x01", "raw-c0"}, {"\x1f", "raw-c0"}, {"\x0b", "raw-c0"},
+		{"\xf3\xa0\x80\x81", "astral-nonprintable"}, {"\xf4\x8f\xbf\xbf", "astral-nonprintable"},
 	}
 	blockPieces = []struct{ text, class string }{
 		{"a", ""}, {"xyz", ""}, {"x y", ""}, {" ", "space"}, {"  ", "space"}, {"\t", "space"}, {"\n", "newline"}, {"\n  ", "indent"}, {"\n    ", "indent"},
 		{"\n\t", "indent"}, {"\r\n", "crlf"}, {"\r", "cr"}, {"\n\n", "blank-line"},
 		{bs + `"""`, "escaped-triple-quote"}, {`"`, "quote"}, {`""`, "quote"}, {bs, "backslash"}, {bs + "n", "backslash"}, {bs + bs, "backslash"}, {bs + "u0041", "backslash"},
 		{"\xc3\xa9", "raw-nonascii"}, {"\xf0\x9f\x98\x80", "raw-nonascii"}, {"#", ""}, {",", ""},
+		// characters that a JSON encoder must escape or pass through but that Go-style quoting
+		// (strconv.Quote) spells with non-JSON escapes: DEL, C0 controls other than \b \f \n \r \t
+		// (SourceCharacters since the 2025 edition), non-printable code points above U+FFFF
+		{"\x7f", "del"}, {"a\x7fb", "del"}, {"\x01", "c0-control"}, {"\x07", "c0-control"}, {"\x0b", "c0-control"}, {"\x1b", "c0-control"}, {"\x1f", "c0-control"},
+		{"\x08", "c0-control"}, {"\x0c", "c0-control"},
+		{"\xf3\xa0\x80\x81", "astral-nonprintable"}, {"\xf4\x8f\xbf\xbf", "astral-nonprintable"}, {"\xf0\x9f\xbf\xbe", "astral-nonprintable"}, {"\xf0\xbf\xbf\xbd", "astral-nonprintable"},
+		{"\xc2\x85", "c1-control"}, {"\xe2\x80\xa8", "raw-nonascii"}, {"\xef\xbf\xbe", "bmp-noncharacter"},
 	}
+	// InvalidUTF8Pieces are byte sequences that are not UTF-8; a document containing one is not
+	// valid GraphQL, so only "never invalid JSON, never a panic" can be demanded for it.
+	InvalidUTF8Pieces = []string{"\xff", "\xc3", "\xed\xa0\x80", "a\x80b", "\xf8\x88\x80\x80\x80"}
 )
+
+// BlockStringWith draws a block string literal that contains the given piece.
+func (g *Gen) BlockStringWith(piece string) string {
+	var b strings.Builder
+	for i, n := 0, g.n(0, 3, "nbpre"); i < n; i++ {
+		b.WriteString(pick(g, []string{"a", " ", "\n  ", "xyz", "\n"}, "bpre"))
+	}
+	b.WriteString(piece)
+	for i, n := 0, g.n(0, 3, "nbpost"); i < n; i++ {
+		b.WriteString(pick(g, []string{"a", " ", "\n  ", "xyz", "\n"}, "bpost"))
+	}
+	return `"""` + b.String() + `"""`
+}
 
 // LiteralClasses collects the spelling classes of the most recent literals (for labels).
 type LiteralClasses map[string]bool
